@@ -378,6 +378,21 @@ pub fn run(rep: &mut Report) {
         rep.bound("raw_operands", nn * nc);
         sweep(rep, "c01.raw_operand", 12 * nn * nc, |i, out| judge_raw((i % 12) as usize, raw_c[((i / 12) / nn) as usize], raw_n[((i / 12) % nn) as usize], out));
     }
+    // interior scan (round 8): evenly spread, unremarkable operands over the whole range, +-10 000 years and every binade
+    {
+        let ns: u64 = if deep { 40_000_000 } else { 3_000_000 };
+        rep.bound("interior_scan_points", ns);
+        sweep(rep, "c01.scan_bin", 4 * ns, |i, out| {
+            judge_bin((i % 4) as usize, scan_dur(i / 4, 0), scan_dur(i / 4 + 1, 1), out);
+        });
+        sweep(rep, "c01.scan_un", 2 * ns, |i, out| {
+            judge_un((i % 2) as usize, scan_dur(i / 2, 2), out);
+        });
+        sweep(rep, "c01.scan_scale", 3 * ns, |i, out| {
+            judge_scale((i % 3) as usize, scan_dur(i / 3, 3), scan_i64(i / 3, 4), out);
+        });
+        sweep(rep, "c01.scan_unit", 4 * 9 * (ns / 8), |i, out| judge_unit((i % 4) as usize, scan_dur(i / 36, 5), UNITS[((i / 4) % 9) as usize], out));
+    }
     let depth = if deep { 5 } else { 4 };
     rep.bound("seq_depth", depth as u64);
     let spec = Seq { acts: seq_alphabet(), inits: vec![0, DMIN, DMAX, -1, -NPC, -2 * NPC + NPC - 1], depth };
